@@ -24,6 +24,7 @@ const (
 var (
 	ErrInvalidIpAddress      = errors.New("invalid ip address")
 	ErrUnspecifiedIpAddress  = errors.New("unspecified ip address")
+	ErrChain                 = errors.New("chain resolver")
 	ErrRemoteAddress         = errors.New("remote address resolver")
 	ErrSingleIPHeader        = errors.New("single ip header resolver")
 	ErrLeftmostNonPrivate    = errors.New("leftmost non private resolver")
@@ -38,6 +39,7 @@ var (
 	errLeftmostNonPrivate  = fmt.Errorf("%w: unable to find a valid or non-private IP", ErrLeftmostNonPrivate)
 	errRightmostNonPrivate = fmt.Errorf("%w: unable to find a valid or non-private IP", ErrRightmostNonPrivate)
 	errSingleIPHeader      = fmt.Errorf("%w: header not found", ErrSingleIPHeader)
+	errEmptyChain          = fmt.Errorf("%w: no resolver configured", ErrChain)
 )
 
 // TrustedIPRange returns a set of trusted IP ranges.
@@ -93,6 +95,11 @@ func (s Chain) ClientIP(c fox.Context) (*net.IPAddr, error) {
 			return ipAddr, nil
 		}
 		errs = errors.Join(errs, err)
+	}
+
+	if errs == nil {
+		// An empty chain has no first success: report it rather than returning (nil, nil).
+		return nil, errEmptyChain
 	}
 
 	return nil, errs
